@@ -1,0 +1,16 @@
+//go:build verif
+
+// Contracts for the 02-client keeper (comment-only; read by /verif's tibcvc).
+package keeper
+
+//@ wire (Keeper).storeKey = store tibc
+
+//@ spec selfName(S: store): str = optstr(S[k_raw("chainName")])
+
+//@ func (Keeper).GetChainName(ctx) (result)
+//@   ensures def: result == selfName(tibc)
+//@
+//@ func (Keeper).GetClientState(ctx, chainName) (cs, found)
+//@   ensures found: found <==> present(tibc[clientState(chainName)])
+//@   ensures dec:   found ==> cs == types.csDecode(val(tibc[clientState(chainName)])) && cs != nil
+//@   ensures none:  !found ==> cs == nil
